@@ -32,14 +32,16 @@ class C04(Prop):
     id = "C04"
     level = "proof"
     design_ref = "§8 C04"
-    level_text = ("Lean theorems: the verification pass (Kendall-tau additivity along the sequence) accepts exactly the "
-                  "sequences on which every pair switches at most once; whenever the model of is_single_crossing "
-                  "answers True its sequence is a permutation of the distinct orders with that property (soundness, "
-                  "both branches); the witness checker and the brute-force decider are correct. Completeness of the "
-                  "score-sorting step is compared against the verified brute-force decider (tested, not proved). The "
-                  "model is run against the real functions on every case")
-    level_note = ("Lean kernel + standard axioms; hand-written model (D2 repaired: buckets flattened); exactness of "
-                  "'False' rests on differential testing against the verified brute-force decider")
+    level_text = ("Lean theorems about a statement-faithful model of singlecrossing.py: the verdict of is_single_crossing "
+                  "is exact (isSC_iff: True iff the distinct orders can be arranged so that every pair switches at most "
+                  "once; soundness isSC_sound and completeness isSC_complete, both the sort and the bucket branch, any "
+                  "storage order), the returned sequence is a single-crossing arrangement of all distinct orders, the "
+                  "verification pass is equivalent to the definition (isOrderedSC_iff), is_single_crossing_conflict_sets "
+                  "decides the same property (conflictSets_iff) and gives the same verdict (isSC_eq_conflictSets); "
+                  "witness checker and brute-force decider are verified. The model is run against the real functions on "
+                  "every case")
+    level_note = ("Lean kernel + standard axioms; hand-written model (D2 repaired: buckets flattened) tied to the code by "
+                  "the correspondence check")
     theorems = [
         "PrefVerif.C04.mem_perms",
         "PrefVerif.C04.scSeq_iff",
@@ -51,6 +53,10 @@ class C04(Prop):
         "PrefVerif.C04.conflictSets_iff",
         "PrefVerif.C04.conflictSets_sound",
         "PrefVerif.C04.conflictSets_empty",
+        "PrefVerif.C04c.kt_additive_of_scSeq",
+        "PrefVerif.C04c.isSC_complete",
+        "PrefVerif.C04c.isSC_iff",
+        "PrefVerif.C04c.isSC_eq_conflictSets",
     ]
     rule = ("exhaustive: all sets of <= 3 orders over 3 alternatives; random profiles m<=6 against brute force "
             "(n<=6); planted single-crossing walks and one-swap perturbations up to m=12, n=16 with shuffled storage, "
@@ -77,6 +83,10 @@ class C04(Prop):
                 nn = rng.randint(1, 6)
                 orders = gen.strict_orders(rng, alts, nn)
                 planted = None
+                if rng.random() < 0.5:
+                    yield {"kind": "profile", "alts": alts, "store": gen.perm(rng, alts),
+                           "orders": [list(o) for o in orders], "planted": None}
+                    continue
             else:
                 m = rng.choice([3, 4, 5, 6, 8, 12])
                 alts = gen.alt_ids(rng, m, zero_ok=True)
@@ -104,7 +114,7 @@ class C04(Prop):
     def run_impl(self, case):
         from preflibtools.properties.subdomains.ordinal import singlecrossing as SC
         prof = [(tuple((a,) for a in o), 1) for o in case["orders"]]
-        inst = gen.make_ordinal(prof, alts=case["alts"], data_type="soc")
+        inst = gen.make_ordinal(prof, alts=case.get("store", case["alts"]), data_type="soc")
         n, m = len(case["orders"]), len(case["alts"])
         self.count("branch:" + ("n<m" if n < m else "n>=m"))
         r = call(SC.is_single_crossing, inst)
